@@ -85,7 +85,7 @@ class C14(object):
     rule = ("one run = a short history (roundtrip | sort | a sequence of 2..5 overlap calls on reused cache objects) on "
             "the instrumented module with garbage-filled np.empty buffers, team 1..16 and a seeded interleaving of the "
             "mask_to_coo loops; distinct = distinct (scenario, input digest, team); non-trivial = at least two selected "
-            "pixels / one shared pixel; also: strict kernel calls incl. uint32 counts beyond 2^24, concurrent tosparse callers, frames anywhere in a 65534^2 image, Fortran/strided data and masks, NaN pixels, buffer reuse after conversion, 2-3 Python threads under the Python scheduler, pairrow on an HDF5-backed scan with empty frames")
+            "pixels / one shared pixel; also: strict kernel calls incl. uint32 counts beyond 2^24, concurrent tosparse callers, frames anywhere in a 65534^2 image, Fortran/strided data and masks, NaN pixels, buffer reuse after conversion, 2-3 Python threads under the Python scheduler, pairrow on an HDF5-backed scan with empty frames, frames through an HDF5 group used before, fractional cuts, a peak of more than 65535 shared pixels")
     components = {"real": enginea.COMPONENTS_REAL + ["mask_to_coo, tosparse_u16/u32/f32, sparse_is_sorted, sparse_overlaps, "
                                                        "compress_duplicates, coverlaps (machine code)",
                                                        "ImageD11.sparseframe: sparse_frame, from_data_mask, from_data_cut, "
